@@ -181,6 +181,7 @@ func newGSUB(table tables.Layout) (GSUB, error) {
 				if err != nil {
 					return GSUB{}, err
 				}
+				subtable = subtables[j] // sanitize the actual subtable
 			}
 
 			// a null coverage offset yields a nil Coverage, on which Sanitize and the shaper would panic
@@ -241,6 +242,7 @@ func newGPOS(table tables.Layout) (GPOS, error) {
 				if err != nil {
 					return GPOS{}, err
 				}
+				subtable = subtables[j] // sanitize the actual subtable
 			}
 
 			// a null coverage offset yields a nil Coverage, on which Sanitize and the shaper would panic
